@@ -175,7 +175,7 @@ end SchemaView
 
 /-- The executable form of the hypothesis `ValidSchemaView` of the totality theorems
 (`Proofs/FrontendComp.lean`): what the frontend relies on about a schema that `Schema::new`
-accepted. Used by the driver's `view-valid` request and by `decide` on concrete schemas. -/
+accepted (the distinct-parameter-names clause included, since the repair of F-C10-5). Used by the driver's `view-valid` request and by `decide` on concrete schemas. -/
 def validSchemaViewB (S : SchemaView) : Bool :=
   S.types.all (fun t => t.fields.all (fun f =>
     (isBuiltinScalar f.ty.base || S.isVertexType f.ty.base) &&
